@@ -35,6 +35,9 @@ pub enum Pattern {
     ReadToEnd,
     Fixed(usize),
     BufRead(usize),
+    /// like `Fixed`, but the consumer keeps calling `read` (up to 6 more times) after an error:
+    /// what is released afterwards counts, and a 0-byte read afterwards counts as a clean end
+    PollOn(usize),
 }
 
 /// drain `r`; returns (bytes released, clean end?)
@@ -52,6 +55,27 @@ pub fn consume<R: Read + BufRead>(mut r: R, p: Pattern) -> (Vec<u8>, bool) {
                     Ok(0) => return (out, true),
                     Ok(k) => out.extend_from_slice(&buf[..k]),
                     Err(_) => return (out, false),
+                }
+            }
+        }
+        Pattern::PollOn(n) => {
+            let mut buf = vec![0u8; n.max(1)];
+            let mut errors = 0;
+            loop {
+                match std::panic::catch_unwind(std::panic::AssertUnwindSafe(|| r.read(&mut buf))) {
+                    Ok(Ok(0)) => return (out, true),
+                    Ok(Ok(k)) => out.extend_from_slice(&buf[..k]),
+                    Ok(Err(_)) => {
+                        errors += 1;
+                        if errors > 6 {
+                            return (out, false);
+                        }
+                    }
+                    Err(_) => {
+                        // a panic on a later poll: reported as released garbage so that every oracle trips
+                        out.extend_from_slice(b"<PANIC ON POLL AFTER ERROR>");
+                        return (out, true);
+                    }
                 }
             }
         }
@@ -192,7 +216,7 @@ fn v2_case(ctx: &mut Ctx, p: &V2Params, honest: &[u8], pt: &[u8], ct: &[u8], wha
 fn run_v2(ctx: &mut Ctx) {
     let modes = [AeadAlgorithm::Eax, AeadAlgorithm::Ocb, AeadAlgorithm::Gcm];
     let syms = [SymmetricKeyAlgorithm::AES128, SymmetricKeyAlgorithm::AES256, SymmetricKeyAlgorithm::AES192];
-    let pats = [Pattern::ReadToEnd, Pattern::Fixed(1), Pattern::Fixed(7), Pattern::Fixed(64), Pattern::BufRead(3), Pattern::BufRead(1000)];
+    let pats = [Pattern::ReadToEnd, Pattern::Fixed(1), Pattern::Fixed(7), Pattern::Fixed(64), Pattern::BufRead(3), Pattern::BufRead(1000), Pattern::PollOn(64), Pattern::PollOn(5)];
     let mut rng = ChaCha8Rng::seed_from_u64(ctx.seed ^ 0xC03);
     let cs_octets: &[u8] = if ctx.thorough() { &[0, 1, 2] } else { &[0, 1] };
     let mut combo = 0usize;
@@ -399,7 +423,7 @@ fn v1_case(ctx: &mut Ctx, sym: SymmetricKeyAlgorithm, key: &[u8], pt: &[u8], hon
 
 fn run_v1(ctx: &mut Ctx) {
     let syms = [SymmetricKeyAlgorithm::AES128, SymmetricKeyAlgorithm::CAST5, SymmetricKeyAlgorithm::AES256];
-    let pats = [Pattern::ReadToEnd, Pattern::Fixed(1), Pattern::Fixed(64), Pattern::BufRead(5), Pattern::Fixed(8192)];
+    let pats = [Pattern::ReadToEnd, Pattern::Fixed(1), Pattern::Fixed(64), Pattern::BufRead(5), Pattern::Fixed(8192), Pattern::PollOn(64), Pattern::PollOn(8192)];
     let mut rng = ChaCha8Rng::seed_from_u64(ctx.seed ^ 0xC031);
     let small: Vec<usize> = vec![0, 1, 2, 21, 22, 23, 40, 100];
     for (i, &n) in small.iter().enumerate() {
